@@ -44,12 +44,24 @@ def _lockish(expr):
     return tail.endswith('lock') or tail.endswith('condition')
 
 
+def _always_leaves(stmts):
+    if not stmts:
+        return False
+    last = stmts[-1]
+    if isinstance(last, (ast.Return, ast.Raise, ast.Continue, ast.Break)):
+        return True
+    if isinstance(last, ast.If) and last.orelse:
+        return _always_leaves(last.body) and _always_leaves(last.orelse)
+    return False
+
+
 class _Canon(ast.NodeTransformer):
     """Canonical forms, so that rules see one shape for equivalent code:
     x = x <op> e        -> x <op>= e
     f(b=.., a=..)       -> keywords sorted by name (**kw last)
     pass                -> removed from non-empty blocks
-    L.acquire(); try: B finally: L.release()   ->   with L: B   (L a lock/condition)"""
+    L.acquire(); try: B finally: L.release()   ->   with L: B   (L a lock/condition)
+    if c: A(always leaves the block) else: B   ->   if c: A ; B"""
 
     def visit_Assign(self, node):
         self.generic_visit(node)
@@ -103,6 +115,11 @@ class _Canon(ast.NodeTransformer):
                 out.append(ast.copy_location(w, s))
                 i += 2
                 continue
+            # if c: A (always leaves the block) else: B   ->   if c: A ; B     (guard-clause form)
+            if isinstance(s, ast.If) and s.orelse and _always_leaves(s.body):
+                rest = s.orelse
+                s.orelse = []
+                stmts = stmts[:i + 1] + rest + stmts[i + 1:]
             out.append(s)
             i += 1
         return out
